@@ -13,13 +13,14 @@ import (
 )
 
 func init() {
-	register("C16", checkC16, "R16.1 the two unchecked type assertions of the assembler are discharged by the abstract interpreter: every error that can reach them has dynamic type *ErrorParseTCP and is non-nil (set of dynamic types merged over all return sites of the classifier, ParseTCPRequest and ParseMBAPHeader). R16.2 the request dispatcher is interpreted under the facts the assembler has established when it calls it (classifier accepted: protocol id 0, length field >= 3, function byte in the supported table; complete frame: len = 6 + length field): every feasible rejecting return carries an exception whose transaction id, unit id and function are the frame's own bytes and whose code is 3; unaddressed errors (header parser, unknown function) are infeasible there (R16.2b). R16.3 ErrorResponseTCP.Bytes() writes exactly 9 bytes: transaction id, protocol 0, length 3, unit id, function+0x80 (function <= 127), code. R16.4 every reply the assembler builds itself takes transaction id and unit id from the consumed frame and the function code from the parsed request; the other replies are the classifier's addressed exception, the parser's exception (R16.2), the handler's own typed error or the handler's response. R16.5 every go statement of package server starts by deferring a function that recovers, and nothing in that deferred function can panic on a nil callback (C17 R17.1). What handlers put into their own responses is outside the property. R16.0 = C15 R15.1/R15.2. R16.6 no function reachable from the per-connection path stores to package-level state, directly or through a pointer loaded from a package-level variable. R16.7 = C15 R15.3 (the assembler loop: persistence of buffered bytes, every buffered request answered in turn). R16.9 after a failed reply Write the connection loop cannot reach the next Read. R16.5 also: every bounds/nil/assertion obligation of what the deferred recovery reaches is discharged and the recovered value is not asserted unchecked. R16.10 = C15 R15.5 (one freshly allocated assembler per accepted connection).")
+	register("C16", checkC16, "R16.1 the two unchecked type assertions of the assembler are discharged by the abstract interpreter: every error that can reach them has dynamic type *ErrorParseTCP and is non-nil (set of dynamic types merged over all return sites of the classifier, ParseTCPRequest and ParseMBAPHeader). R16.2 the request dispatcher is interpreted under the facts the assembler has established when it calls it (classifier accepted: protocol id 0, length field >= 3, function byte in the supported table; complete frame: len = 6 + length field): every feasible rejecting return carries an exception whose transaction id, unit id and function are the frame's own bytes and whose code is 3; unaddressed errors (header parser, unknown function) are infeasible there (R16.2b). R16.3 ErrorResponseTCP.Bytes() writes exactly 9 bytes: transaction id, protocol 0, length 3, unit id, function+0x80 (function <= 127), code. R16.4 every reply the assembler builds itself takes transaction id and unit id from the consumed frame and the function code from the parsed request; the other replies are the classifier's addressed exception, the parser's exception (R16.2), the handler's own typed error or the handler's response. R16.5 every go statement of package server starts by deferring a function that recovers, and nothing in that deferred function can panic on a nil callback (C17 R17.1). What handlers put into their own responses is outside the property. R16.0 = C15 R15.1/R15.2. R16.6 no function reachable from the per-connection path stores to package-level state, directly or through a pointer loaded from a package-level variable. R16.7 = C15 R15.3 (the assembler loop: persistence of buffered bytes, every buffered request answered in turn). R16.9 after a failed reply Write the connection loop cannot reach the next Read. R16.5 also: every bounds/nil/assertion obligation of what the deferred recovery reaches is discharged and the recovered value is not asserted unchecked. R16.10 = C15 R15.5 (one freshly allocated assembler per accepted connection). R16.11 for every function code with a quantity limit, each accepting return of the dispatcher (under the same facts as R16.2) entails that the 16-bit field at the specification's frame offset lies in the specification's range, so an out-of-range quantity cannot reach the handler.")
 }
 
 func checkC16(c *Ctx, r *Report) {
 	r.floor("R16.0", 1)
 	r.floor("R16.1", 2)
 	r.floor("R16.2", 10)
+	r.floor("R16.11", 8)
 	r.floor("R16.3", 1)
 	r.floor("R16.4", 1)
 	r.floor("R16.5", 1)
@@ -304,6 +305,84 @@ func c16Dispatcher(c *Ctx, r *Report) {
 			if why := c16CheckExc(pf, rs.state, rs.instr, obj, d, fc); why != "" {
 				bad++
 				r.fail("R16.2", id, fmt.Sprintf("FC%d: a rejecting path returns an exception that is not addressed to the request", fc), pos, why, fmt.Sprintf("fc%d:%s", fc, why))
+			}
+		}
+		// R16.11: the quantity test looks at the quantity field: on every accepting return the 16-bit
+		// field at the specification's offset of the frame is inside the specification's range (a
+		// test applied to other bytes of the frame lets an out-of-range request through to the
+		// handler instead of answering it with code 3)
+		if sp := specFor(fc); sp != nil {
+			off := int64(8)
+			fieldOff := map[string]int64{}
+			for _, sg := range sp.req {
+				switch sg.kind {
+				case sBE16, sCoil:
+					fieldOff[sg.field] = off
+					off += 2
+				case sByteCount, sCountByte, sByte:
+					off++
+				default:
+					off = -1 << 40 // variable part: later offsets are not constant
+				}
+				if off < 0 {
+					break
+				}
+			}
+			for _, lim := range sp.lim {
+				fo, has := fieldOff[lim.field]
+				if !has {
+					continue
+				}
+				r.instance("R16.11", 1)
+				q := pf.frameBytes(d, affConst(fo), 2, true)
+				nacc, nbad := 0, 0
+				where := ""
+				judge := func(st DNF, at ssa.Instruction) {
+					nacc++
+					if !st.entails(atomGE(q, affConst(lim.lo))) || !st.entails(atomLE(q, affConst(lim.hi))) {
+						nbad++
+						where = c.pos(at.Pos())
+					}
+				}
+				for _, rs := range pf.returns {
+					if len(rs.state) == 0 {
+						continue
+					}
+					nf := pf.nilness(rs.vals[1])
+					if nf.kind == fConst {
+						if nf.b {
+							judge(rs.state, rs.instr)
+						}
+						continue
+					}
+					// (value, error) forwarded from the per-function parser called in the returning
+					// block: its own accepting returns
+					for call, ch := range pf.child {
+						if call.Block() != rs.instr.Block() {
+							continue
+						}
+						for _, crs := range ch.returns {
+							if len(crs.state) == 0 {
+								continue
+							}
+							cn := ch.nilness(crs.vals[len(crs.vals)-1])
+							if cn.kind == fConst && cn.b {
+								judge(crs.state, crs.instr)
+							} else if cn.kind != fConst {
+								nbad++
+								where = c.pos(crs.instr.Pos()) + " (error result neither nil nor non-nil)"
+							}
+						}
+					}
+				}
+				switch {
+				case nacc == 0:
+					r.undecided("R16.11", id, fmt.Sprintf("FC%d: no accepting return found", fc), c.pos(disp.Pos()))
+				case nbad > 0:
+					r.fail("R16.11", id, fmt.Sprintf("FC%d: a classifier-accepted complete frame whose %s field (frame bytes %d..%d) is outside %d..%d can be accepted and handed to the handler instead of being answered with exception code 3", fc, lim.field, fo, fo+1, lim.lo, lim.hi), where, "", fmt.Sprintf("fc%d:quantity-not-tested:%s", fc, lim.field))
+				default:
+					r.ok("R16.11", id, fmt.Sprintf("FC%d: every accepting return entails %d <= %s <= %d for the field at frame bytes %d..%d", fc, lim.lo, lim.field, lim.hi, fo, fo+1), c.pos(disp.Pos()), true)
+				}
 			}
 		}
 		for _, o := range an.obligs {
